@@ -1,18 +1,19 @@
 //! Model of `lru::LruCache<K, V>`: capacity-bounded map with least-recently-used eviction.
 //! `get` promotes the entry to most-recently-used; `put` inserts/updates and promotes, evicting
 //! the least recently used entry when the capacity is exceeded (lru crate docs).
+//! Storage: a Vec allocated once at capacity, entries never move; recency is a per-entry stamp.
 use std::borrow::Borrow;
 use std::num::NonZeroUsize;
 
 pub struct LruCache<K, V> {
     cap: usize,
-    /// most recently used LAST
-    items: Vec<(K, V)>,
+    clock: u64,
+    items: Vec<(K, V, u64)>,
 }
 
 impl<K: Eq, V> LruCache<K, V> {
     pub fn new(cap: NonZeroUsize) -> Self {
-        LruCache { cap: cap.get(), items: Vec::new() }
+        LruCache { cap: cap.get(), clock: 0, items: Vec::with_capacity(cap.get()) }
     }
     pub fn len(&self) -> usize {
         self.items.len()
@@ -25,38 +26,41 @@ impl<K: Eq, V> LruCache<K, V> {
         K: Borrow<Q>,
         Q: Eq + ?Sized,
     {
-        let mut found: Option<usize> = None;
         let mut i = 0;
         while i < self.items.len() {
             if self.items[i].0.borrow() == k {
-                found = Some(i);
-                break;
+                self.clock += 1;
+                self.items[i].2 = self.clock;
+                return Some(&self.items[i].1);
             }
             i += 1;
         }
-        match found {
-            None => None,
-            Some(i) => {
-                let e = self.items.remove(i);
-                self.items.push(e);
-                self.items.last().map(|e| &e.1)
-            }
-        }
+        None
     }
     pub fn put(&mut self, k: K, v: V) -> Option<V> {
+        self.clock += 1;
         let mut i = 0;
         while i < self.items.len() {
             if self.items[i].0 == k {
-                let old = self.items.remove(i);
-                self.items.push((k, v));
-                return Some(old.1);
+                self.items[i].2 = self.clock;
+                return Some(core::mem::replace(&mut self.items[i].1, v));
             }
             i += 1;
         }
         if self.items.len() >= self.cap {
-            self.items.remove(0);
+            // evict the least recently used entry, in place
+            let mut lru = 0;
+            let mut j = 1;
+            while j < self.items.len() {
+                if self.items[j].2 < self.items[lru].2 {
+                    lru = j;
+                }
+                j += 1;
+            }
+            self.items[lru] = (k, v, self.clock);
+        } else {
+            self.items.push((k, v, self.clock));
         }
-        self.items.push((k, v));
         None
     }
 }
